@@ -11,6 +11,61 @@ let err_name = function
   | ZeroShards -> "ZeroShards" | ShardIdOutOfRange -> "ShardIdOutOfRange"
   | ParseIntError -> "ParseIntError"
 
+(* ---- E lines: the connect loop over the iterator, observed at the mock node ---- *)
+let strip_prefix pre s =
+  let k = String.length pre in
+  if String.length s >= k && String.sub s 0 k = pre then String.sub s k (String.length s - k)
+  else failwith ("expected " ^ pre ^ " in " ^ s)
+let dotted s = List.map n_of_hex (String.split_on_char '.' s)
+let stat st key =
+  let rec go = function
+    | [] -> failwith ("no stat " ^ key)
+    | kv :: r -> (match String.split_on_char ':' kv with
+        | [k; v] when k = key -> int_of_string v
+        | _ -> go r) in
+  go (String.split_on_char ',' st)
+
+let verdict_e n nodes per lo hi planned sa pl pre rq st =
+  let n = n_of_hex n and lo = n_of_hex lo and hi = n_of_hex hi in
+  let nodes = int_of_n (n_of_hex nodes) and per = int_of_n (n_of_hex per) in
+  let planned = nlist_of_string planned in
+  let pre = nlist_of_string (strip_prefix "pre=" pre) in
+  let sa = strip_prefix "sa=" sa and pl = strip_prefix "pl=" pl in
+  let sa = if sa = "-" then [] else List.map (fun t -> match dotted t with
+      | [nd; port; shard] -> (int_of_n nd, port, shard) | _ -> failwith "sa entry") (split_on ',' sa) in
+  let pl = if pl = "-" then [] else List.map (fun t -> match dotted t with
+      | [nd; shard] -> (int_of_n nd, shard) | _ -> failwith "pl entry") (split_on ',' pl) in
+  if List.exists (fun p -> not (List.mem p planned)) pre then "error harness pre-bound port that was not planned"
+  else if List.exists (fun (nd, _, _) -> nd >= nodes) sa then "error harness node index"
+  else
+  (* the property, evaluated on what the mock accepted (C11_connect_accept_iff) *)
+  if not (accept_conns n lo hi pre (List.map (fun (_, port, shard) -> (port, shard)) sa)) then begin
+    let (nd, port, shard) = List.find (fun (_, port, shard) -> not (accept_conn n lo hi pre port shard)) sa in
+    Printf.sprintf "viol shard-aware-connection node=%d port=%s shard=%s range=%s..%s pre-bound=%s"
+      nd (hex_of_n port) (hex_of_n shard) (hex_of_n lo) (hex_of_n hi) (string_of_nlist pre)
+  end else
+  (* correspondence with the model of the loop and with the pool's documented reaction *)
+  let shards = List.init (int_of_n n) n_of_int in
+  let pairs = List.concat_map (fun nd -> List.map (fun s -> (nd, s)) shards) (List.init nodes (fun i -> i)) in
+  let starved = List.filter (fun (_, s) -> starvedb n s lo hi pre) pairs in
+  let count_sa (nd, s) = List.length (List.filter (fun (nd', _, s') -> nd' = nd && s' = s) sa) in
+  let count_pl (nd, s) = List.length (List.filter (fun (nd', s') -> nd' = nd && s' = s) pl) in
+  let rq_ok, rq_sent = match dotted (strip_prefix "rq=" rq) with [a; b] -> (a, b) | _ -> failwith "rq" in
+  let st = strip_prefix "st=" st in
+  if rq_ok <> rq_sent then "diff requests-failed " ^ rq
+  else if List.length starved <> stat st "starved" then
+    Printf.sprintf "diff starved-shards model=%d runner=%d" (List.length starved) (stat st "starved")
+  else match List.find_opt (fun pr -> count_sa pr > per) pairs with
+    | Some (nd, s) ->
+      (* the loop returns at the first successful connection: one connection per pool slot *)
+      Printf.sprintf "diff more-shard-aware-connections-than-pool-slots node=%d shard=%s count=%d per=%d" nd (hex_of_n s) (count_sa (nd, s)) per
+    | None ->
+      match List.find_opt (fun pr -> count_pl pr < per) starved with
+      | Some (nd, s) ->
+        (* after NoSourcePortForShard the refiller retries through the plain port until the shard is served *)
+        Printf.sprintf "diff starved-shard-not-served-through-plain-port node=%d shard=%s" nd (hex_of_n s)
+      | None -> "ok"
+
 let verdict case impl =
   match case, impl with
   (* a panic of the implementation inside the quantifier is a property failure, not a mismatch *)
@@ -51,6 +106,9 @@ let verdict case impl =
        | ["ok"; s; n; _] when (int_of_n (n_of_hex n) = 0 || int_of_n (n_of_hex s) >= int_of_n (n_of_hex n)) ->
          "viol model=" ^ ms
        | _ -> "diff model=" ^ ms)
+  | ("E" :: _), ("not-run" :: rest) -> "ok not-run " ^ String.concat " " rest
+  | ["E"; _; n; nodes; per; lo; hi; planned], [sa; pl; pre; rq; st] ->
+    verdict_e n nodes per lo hi planned sa pl pre rq st
   | _ -> "error unknown-case"
 
 let () = run_lines verdict
